@@ -52,6 +52,7 @@ func newC20Env() *c20Env {
 	in := script.NewInterner()
 	in.ID("message doesn't have a delay set") // 1 = Decor.Model.e_nodelay
 	in.ID("<no handler>")                     // 2 = Decor.Model.no_handler
+	in.ID("<the call panicked>")              // 3 = Decor.Model.e_panic
 	return &c20Env{in: in}
 }
 
@@ -455,8 +456,11 @@ func (e *c20Env) runPubCase(rng *rand.Rand, concurrent bool) *c20PubCase {
 	nscript := rng.Intn(ncalls + 1)
 	scriptErrs := make([]error, nscript)
 	for i := range scriptErrs {
-		if rng.Intn(3) == 0 {
+		switch rng.Intn(7) {
+		case 0, 1:
 			scriptErrs[i] = fmt.Errorf("publish error %d", rng.Intn(2))
+		case 2:
+			scriptErrs[i] = errC20Panic
 		}
 		c.Script = append(c.Script, e.err(scriptErrs[i]))
 	}
@@ -480,6 +484,14 @@ func (e *c20Env) runPubCase(rng *rand.Rand, concurrent bool) *c20PubCase {
 				size = nobj
 			}
 			pc.Batch = append(pc.Batch, rng.Perm(nobj)[:size]...)
+			if size > 0 && rng.Intn(6) == 0 { // the same *Message twice (or three times) in one call
+				d := pc.Batch[rng.Intn(size)]
+				at := rng.Intn(len(pc.Batch) + 1)
+				pc.Batch = append(pc.Batch[:at], append([]int{d}, pc.Batch[at:]...)...)
+				if rng.Intn(3) == 0 {
+					pc.Batch = append(pc.Batch, d)
+				}
+			}
 		}
 		for _, i := range pc.Batch {
 			owner[objs[i].msg] = pc
@@ -517,6 +529,9 @@ func (e *c20Env) runPubCase(rng *rand.Rand, concurrent bool) *c20PubCase {
 		pc.innerIdx = n
 		pc.mu.Unlock()
 		if n < len(scriptErrs) {
+			if scriptErrs[n] == errC20Panic {
+				panic([]interface{}{"scripted publisher panic", nil, errors.New("x")}[n%3])
+			}
 			return scriptErrs[n]
 		}
 		return nil
@@ -588,7 +603,18 @@ func (e *c20Env) runPubCase(rng *rand.Rand, concurrent bool) *c20PubCase {
 		for _, m := range msgs {
 			pc.Before = append(pc.Before, e.observeP(objs, idx, m))
 		}
-		err := pub.Publish(e.in.Tab[pc.Topic], msgs...)
+		err := func() (err error) {
+			returned := false
+			defer func() {
+				if !returned { // recover() alone would miss panic(nil) under old semantics
+					recover()
+					err = errC20Panic
+				}
+			}()
+			err = pub.Publish(e.in.Tab[pc.Topic], msgs...)
+			returned = true
+			return err
+		}()
 		pc.Res = e.err(err)
 		pc.After = []c20Msg{}
 		for _, m := range msgs {
@@ -692,6 +718,8 @@ func (s *c20Sub) emit(m *message.Message, d time.Duration) (ok bool) {
 type c20NamedSub struct{ *c20Sub }
 
 func (s c20NamedSub) String() string { return "named-scripted-subscriber" }
+
+var errC20Panic = errors.New("<the call panicked>") // script entry: the wrapped publisher panics
 
 var c20SlowWaits int // subscriber/router cases whose counters never reached the expected total
 
@@ -1161,8 +1189,43 @@ func (e *c20Env) glue() map[string]bool {
 	_, e3 := metrics.NewPrometheusMetricsBuilder(c20BadRegisterer{}, "", "").DecoratePublisher(&c20Pub{})
 	_, e4 := metrics.NewPrometheusMetricsBuilder(c20BadRegisterer{}, "", "").DecorateSubscriber(newC20Sub())
 	res["registration failure is reported by DecoratePublisher/DecorateSubscriber"] = e3 != nil && e4 != nil
+	// a wrapped subscriber / publisher whose Subscribe or Close panics: the panic escapes every decorator unchanged
+	escapes := func(f func()) (ok bool) {
+		defer func() { ok = recover() == c20PanicValue }()
+		f()
+		return false
+	}
+	stackSub := func() message.Subscriber {
+		s1, _ := message.MessageTransformSubscriberDecorator(appendTrail(1))(c20PanicSub{})
+		s2, _ := metrics.NewPrometheusMetricsBuilder(prometheus.NewRegistry(), "", "").DecorateSubscriber(s1)
+		return s2
+	}
+	res["a panic in the wrapped subscriber's Subscribe escapes transform + metrics decorators"] = escapes(func() { stackSub().Subscribe(context.Background(), "t") })
+	res["a panic in the wrapped subscriber's Close escapes transform + metrics decorators"] = escapes(func() { stackSub().Close() })
+	stackPub := func() message.Publisher {
+		p1, _ := message.MessageTransformPublisherDecorator(appendTrail(1))(c20PanicPub{})
+		p2, _ := delay.NewPublisher(p1, delay.PublisherConfig{AllowNoDelay: true})
+		p3, _ := metrics.NewPrometheusMetricsBuilder(prometheus.NewRegistry(), "", "").DecoratePublisher(p2)
+		return p3
+	}
+	res["a panic in the wrapped publisher's Close escapes transform + delay + metrics decorators"] = escapes(func() { stackPub().Close() })
+	res["a panic in the wrapped publisher's Publish escapes transform + delay + metrics decorators with its value"] = escapes(func() { stackPub().Publish("t", message.NewMessage("u", nil)) })
 	return res
 }
+
+var c20PanicValue = errors.New("scripted collaborator panic")
+
+type c20PanicSub struct{}
+
+func (c20PanicSub) Subscribe(context.Context, string) (<-chan *message.Message, error) {
+	panic(c20PanicValue)
+}
+func (c20PanicSub) Close() error { panic(c20PanicValue) }
+
+type c20PanicPub struct{}
+
+func (c20PanicPub) Publish(string, ...*message.Message) error { panic(c20PanicValue) }
+func (c20PanicPub) Close() error                              { panic(c20PanicValue) }
 
 type c20BadRegisterer struct{}
 
